@@ -208,6 +208,11 @@ func init() {
 		x.maybePreemptFree(s)
 		return nil, false
 	}
+	blockingIntrinsics[p+"PreemptPoint"] = func(x *Exec, s *State, c *CallCtx) (Value, bool) {
+		// a scheduling point that costs one unit of the pre-emption budget when taken
+		x.maybePreempt(s)
+		return nil, false
+	}
 	blockingIntrinsics[p+"Regroup"] = func(x *Exec, s *State, c *CallCtx) (Value, bool) {
 		// Regroup(v) = Join immediately followed by Fork(v), without merging in between: states
 		// regroup by the value v
